@@ -217,7 +217,14 @@ type Event struct {
 	St    uint8    // state when observed
 	Req   bool     // P: the element carried req='1'
 	Srv   bool     // N: session was on the receiving side
+	// N: what the `data` argument of Negotiate was: "own" the value the most recent Parse call of
+	// this same feature returned, "nil", "stale" the value of an earlier Parse call of this
+	// feature, "other" anything else (not part of the protocol line; judged by the oracle)
+	Data string
 }
+
+// parseTok is what the instrumented Parse returns as its data: which feature, which Parse call
+type parseTok struct{ F, Seq int }
 
 func (e Event) String(cfg []Beh) string {
 	switch e.Kind {
@@ -865,6 +872,7 @@ func (r *runState) features() []xmpp.StreamFeature {
 				r.abandoned()
 				r.mu.Lock()
 				r.add(Event{Kind: "P", F: i, St: r.state(), Req: req})
+				seq := len(r.events)
 				r.mu.Unlock()
 				if err := d.Skip(); err != nil {
 					return req, nil, err
@@ -872,7 +880,7 @@ func (r *runState) features() []xmpp.StreamFeature {
 				if b.ParseErr {
 					return req, nil, r.cbErr()
 				}
-				return req, i, nil
+				return req, parseTok{F: i, Seq: seq}, nil
 			},
 		}
 		if b.Negotiable {
@@ -881,7 +889,25 @@ func (r *runState) features() []xmpp.StreamFeature {
 				srv := st&Received != 0
 				r.abandoned()
 				r.mu.Lock()
-				r.add(Event{Kind: "N", F: i, St: st, Srv: srv})
+				dk := "other"
+				switch tok := data.(type) {
+				case nil:
+					dk = "nil"
+				case parseTok:
+					last := -1
+					for k, ev := range r.events {
+						if ev.Kind == "P" && ev.F == i {
+							last = k + 1
+						}
+					}
+					switch {
+					case tok.F == i && tok.Seq == last:
+						dk = "own"
+					case tok.F == i:
+						dk = "stale"
+					}
+				}
+				r.add(Event{Kind: "N", F: i, St: st, Srv: srv, Data: dk})
 				r.mu.Unlock()
 				if srv {
 					// consume the selection element (and its IQ wrapper)
